@@ -358,6 +358,55 @@ example (C : List (List R)) (G : List (List (List R)))
   covWithGrad_grad_hasDerivAt _ (by simp [GoodLeaves, gradLeaf]) (by simp [Valid]) _ C G h 2 0 1
     (by simp [nParameters]) (by simp) (by simp)
 
+-- @site Kernel::covariance_with_gradient
+/-- **coincident points.**  For two DIFFERENT rows holding the same point (distance exactly 0) the off-diagonal entry of
+    the returned covariance and of every gradient slice has the same (finite) value as the diagonal entry: `1` and `0`
+    for RBF / ExpSineSquared / RationalQuadratic (`4 sin²(0)·k/ℓ² = 0`, `(4·0/ℓ²)·cos·sin·k = 0`, `0·k/(…) = 0`), `c`
+    for Constant — every tree over these leaves.  (A gradient written as `… * arg / tan(arg)` is `0/0` there.) -/
+theorem covGrad_coincident (k : K R) (hk : GoodLeaves gradLeaf k) (x : List R) :
+    (covGradEntry k .lower x x).1.val = (covGradEntry k .diag x x).1.val ∧
+    (covGradEntry k .lower x x).2.map R.val = (covGradEntry k .diag x x).2.map R.val := by
+  have hz : ∀ u : ℝ, u ^ (2 : ℤ) = u ^ 2 := fun u => by norm_cast
+  induction k with
+  | const c => exact ⟨rfl, rfl⟩
+  | rbf l =>
+    simp only [covGradEntry, List.map_cons, List.map_nil, R.exp_val, R.mul_val, R.neg_val, R.div_val, e2norm_self,
+      lit0, lit1, lit2, neg_zero, zero_div, Real.exp_zero, zero_mul, and_self]
+  | ess l p =>
+    simp only [covGradEntry, List.map_cons, List.map_nil, R.exp_val, R.mul_val, R.neg_val, R.div_val, R.powi_val,
+      R.sin_val, R.cos_val, R.pi_val, eucDist_self, lit0, lit1, lit2, lit4, hz, mul_zero, zero_div, Real.sin_zero]
+    norm_num
+  | rq s a =>
+    simp only [covGradEntry, mulAdd, List.map_cons, List.map_nil, R.powf_val, R.add_val, R.neg_val, R.div_val,
+      R.mul_val, R.powi_val, R.ln_val, sqDist_self, lit0, lit1, lit2, zero_div, add_zero, Real.one_rpow, Real.log_one,
+      zero_mul, mul_zero, and_self]
+  | seard ls => simp [GoodLeaves, gradLeaf] at hk
+  | matern nu l => simp [GoodLeaves, gradLeaf] at hk
+  | white s => simp [GoodLeaves, gradLeaf] at hk
+  | add a b iha ihb =>
+    simp only [GoodLeaves] at hk
+    obtain ⟨ha1, ha2⟩ := iha hk.1
+    obtain ⟨hb1, hb2⟩ := ihb hk.2
+    simp only [covGradEntry, R.add_val, List.map_append, ha1, ha2, hb1, hb2, and_self]
+  | mul a b iha ihb =>
+    simp only [GoodLeaves] at hk
+    obtain ⟨ha1, ha2⟩ := iha hk.1
+    obtain ⟨hb1, hb2⟩ := ihb hk.2
+    have hmap : ∀ (l : List R) (c : R), (l.map (· * c)).map R.val = (l.map R.val).map (· * c.val) := by
+      intro l c; simp only [List.map_map]; rfl
+    simp only [covGradEntry, R.mul_val, List.map_append, hmap, ha1, ha2, hb1, hb2, and_self]
+
+example : (covGradEntry (.mul (.const (r 3)) (.ess (r 1) (r 2))) .lower [r 1, r 5] [r 1, r 5]).2.map R.val
+    = (covGradEntry (.mul (.const (r 3)) (.ess (r 1) (r 2))) .diag [r 1, r 5] [r 1, r 5]).2.map R.val :=
+  (covGrad_coincident _ (by simp [GoodLeaves, gradLeaf]) _).2
+
+-- @site ExpSineSquaredKernel::covariance_with_gradient
+/-- in particular the two ESS slices at a pair of coincident points are `0` (finite) -/
+theorem ess_grad_coincident (l p : R) (x : List R) :
+    (covGradEntry (.ess l p) .lower x x).2.map R.val = [0, 0] := by
+  rw [(covGrad_coincident (.ess l p) rfl x).2]
+  simp only [covGradEntry, List.map_cons, List.map_nil, lit0]
+
 /-! ### leaves whose gradient is NOT the derivative -/
 
 -- @site WhiteKernel::covariance_with_gradient
@@ -420,6 +469,8 @@ end C16
 #print axioms C16.leaf_all_pos
 #print axioms C16.grad_hasDerivAt
 #print axioms C16.covWithGrad_grad_hasDerivAt
+#print axioms C16.covGrad_coincident
+#print axioms C16.ess_grad_coincident
 #print axioms C16.white_grad_counterexample
 #print axioms C16.seard_grad_counterexample
 #print axioms C16.matern_grad_partial
